@@ -24,6 +24,23 @@ struct Tracked {
    uint32 HashCode() const { return (uint32)key; }
 };
 
+
+// ---------------------------------------------------------------- trivially copyable item type (takes Queue's POD fast paths: no per-item clearing,
+// index arithmetic in RemoveHeadMulti/RemoveTailMulti, raw FastClear).  It has no constructors, so std::is_trivial<Pod> holds.
+struct Pod {
+   int key; int tag;
+   void Check() const {}
+   bool operator==(const Pod & o) const { return key == o.key; }
+   bool operator!=(const Pod & o) const { return key != o.key; }
+   bool operator<(const Pod & o) const { return key < o.key; }
+   bool operator>(const Pod & o) const { return key > o.key; }
+   uint32 HashCode() const { return (uint32)key; }
+};
+static_assert(std::is_trivial<Pod>::value, "Pod must be a trivial type");
+template <class T> struct Traits;
+template <> struct Traits<Tracked> { enum { kTracked = 1 }; static Tracked Make(int k, int t) { return Tracked(k, t); } static const char * Name() { return "Queue<Tracked> (owning class type)"; } };
+template <> struct Traits<Pod>     { enum { kTracked = 0 }; static Pod Make(int k, int t) { Pod p; p.key = k; p.tag = t; return p; } static const char * Name() { return "Queue<Pod> (trivially copyable type)"; } };
+
 struct Item { int key, tag; };
 typedef std::deque<Item> Ref;
 
@@ -43,17 +60,18 @@ struct Op { OpKind k; int a; int b; const char * name; };
 static uint32 SelIdx(int sel, size_t n) { switch (sel) { case 0: return 0; case 1: return (uint32)(n / 2); case 2: return (uint32)(n ? n - 1 : 0); case 3: return (uint32)n; default: return (uint32)(n + 1); } }
 static const char * SelName(int sel) { static const char * n[] = {"0", "mid", "last", "size", "size+1"}; return n[sel]; }
 
-struct World {
-   Queue<Tracked> q, r;
+template <class T> struct WorldT {
+   Queue<T> q, r;
    Ref mq, mr;
    int nextTag;
    long liveBase;
    std::string lastResult;  // observable outcome of the last op
-   World() : nextTag(1), liveBase(0) {}
+   WorldT() : nextTag(1), liveBase(0) {}
 };
 
-class QueueModel {
+template <class T> class QueueModel {
 public:
+   typedef Traits<T> TR;
    std::vector<Op> ops; std::vector<std::string> names;
    int tier;
    QueueModel(bool thorough) : tier(thorough ? 1 : 0)
@@ -105,30 +123,30 @@ public:
    std::string StartName(int s) const { return verif::Fmt("fill=%d rot=%d ensure=%d rfill=%d", starts[s].fill, starts[s].rot, starts[s].ensure, starts[s].rfill); }
    int NumOps() const { return (int)ops.size(); }
    std::string OpName(int i) const { return names[i]; }
-   typedef ::World World;
+   typedef WorldT<T> World;
 
-   static Tracked Mk(World & w, int key, Item & it) { it.key = key; it.tag = w.nextTag++; return Tracked(it.key, it.tag); }
+   static T Mk(World & w, int key, Item & it) { it.key = key; it.tag = w.nextTag++; return TR::Make(it.key, it.tag); }
 
    void Init(World & w, int s) const
    {
       // warm-up: creates the per-type static default item so that live-instance accounting has a stable baseline
-      { Queue<Tracked> tmp; (void) tmp.AddTail(Tracked(9, 0)); (void) tmp.RemoveHeadWithDefault(); (void) tmp.GetDefaultItem(); }
+      { Queue<T> tmp; (void) tmp.AddTail(TR::Make(9, 0)); (void) tmp.RemoveHeadWithDefault(); (void) tmp.GetDefaultItem(); }
       w.liveBase = g_liveTagged;
       const Start & st = starts[s];
       if (st.ensure) (void) w.q.EnsureSize((uint32)st.ensure);
-      for (int i = 0; i < st.fill; i++) { Item it; Tracked t = Mk(w, 1 + (i % 3), it); (void) w.q.AddTail(t); w.mq.push_back(it); }
+      for (int i = 0; i < st.fill; i++) { Item it; T t = Mk(w, 1 + (i % 3), it); (void) w.q.AddTail(t); w.mq.push_back(it); }
       // move the ring head: head-to-tail rotation with the content present (add/remove on an empty queue would reset the head index)
-      for (int i = 0; i < st.rot; i++) { Tracked t; (void) w.q.RemoveHead(t); (void) w.q.AddTail(t); w.mq.push_back(w.mq.front()); w.mq.pop_front(); }
-      for (int i = 0; i < st.rfill; i++) { Item it; Tracked t = Mk(w, 2 + i, it); (void) w.r.AddTail(t); w.mr.push_back(it); }
+      for (int i = 0; i < st.rot; i++) { T t = TR::Make(0, 0); (void) w.q.RemoveHead(t); (void) w.q.AddTail(t); w.mq.push_back(w.mq.front()); w.mq.pop_front(); }
+      for (int i = 0; i < st.rfill; i++) { Item it; T t = Mk(w, 2 + i, it); (void) w.r.AddTail(t); w.mr.push_back(it); }
    }
 
    static std::string Show(const Ref & m) { std::string s = "["; for (size_t i = 0; i < m.size(); i++) { if (i) s += ","; s += verif::Fmt("%d#%d", m[i].key, m[i].tag); } return s + "]"; }
-   static std::string ShowQ(const Queue<Tracked> & q) { std::string s = "["; for (uint32 i = 0; i < q.GetNumItems(); i++) { if (i) s += ","; s += verif::Fmt("%d#%d", q[i].key, q[i].tag); } return s + "]"; }
+   static std::string ShowQ(const Queue<T> & q) { std::string s = "["; for (uint32 i = 0; i < q.GetNumItems(); i++) { if (i) s += ","; s += verif::Fmt("%d#%d", q[i].key, q[i].tag); } return s + "]"; }
 
-   static bool Same(const Queue<Tracked> & q, const Ref & m)
+   static bool Same(const Queue<T> & q, const Ref & m)
    {
       if (q.GetNumItems() != m.size()) return false;
-      for (uint32 i = 0; i < q.GetNumItems(); i++) { const Tracked & t = q[i]; t.Check(); if (t.key != m[i].key || t.tag != m[i].tag) return false; }
+      for (uint32 i = 0; i < q.GetNumItems(); i++) { const T & t = q[i]; t.Check(); if (t.key != m[i].key || t.tag != m[i].tag) return false; }
       return true;
    }
 
@@ -136,24 +154,24 @@ public:
    {
       if (!Same(w.q, w.mq)) { msg = "content of q differs: impl " + ShowQ(w.q) + " reference " + Show(w.mq); key = "content"; return false; }
       if (!Same(w.r, w.mr)) { msg = "content of r differs: impl " + ShowQ(w.r) + " reference " + Show(w.mr); key = "content-r"; return false; }
-      const Queue<Tracked> * qs[2] = { &w.q, &w.r }; const Ref * ms[2] = { &w.mq, &w.mr };
+      const Queue<T> * qs[2] = { &w.q, &w.r }; const Ref * ms[2] = { &w.mq, &w.mr };
       for (int z = 0; z < 2; z++) {
-         const Queue<Tracked> & q = *qs[z]; const Ref & m = *ms[z];
+         const Queue<T> & q = *qs[z]; const Ref & m = *ms[z];
          if (q._itemCount > q._queueSize) { msg = "itemCount > queueSize"; key = "layout"; return false; }
          if (q.IsEmpty() != m.empty() || q.HasItems() == m.empty()) { msg = "IsEmpty/HasItems wrong"; key = "query"; return false; }
          if (q.GetLastValidIndex() != (int32)m.size() - 1) { msg = "GetLastValidIndex wrong"; key = "query"; return false; }
          // public element access paths: GetItemAt (both forms), iterators, array pointers, Head/Tail with default
          for (uint32 i = 0; i <= (uint32)m.size(); i++) {
-            Tracked t; status_t r = q.GetItemAt(i, t);
+            T t = TR::Make(0, 0); status_t r = q.GetItemAt(i, t);
             if ((i < m.size()) != r.IsOK()) { msg = verif::Fmt("GetItemAt(%u) status wrong", i); key = "query"; return false; }
             if (i < m.size() && (t.key != m[i].key || t.tag != m[i].tag)) { msg = verif::Fmt("GetItemAt(%u) value wrong", i); key = "query"; return false; }
-            const Tracked * p = q.GetItemAt(i);
+            const T * p = q.GetItemAt(i);
             if ((p != NULL) != (i < m.size())) { msg = verif::Fmt("GetItemAt(%u) pointer wrong", i); key = "query"; return false; }
          }
-         { uint32 i = 0; for (ConstQueueIterator<Tracked> it = q.GetIterator(); it.HasData(); it++, i++) { if (i >= m.size() || it.GetValue().tag != m[i].tag) { msg = "forward iterator sequence wrong"; key = "iterator"; return false; } } if (i != m.size()) { msg = "forward iterator length wrong"; key = "iterator"; return false; } }
-         { int32 i = (int32)m.size() - 1; for (ConstQueueIterator<Tracked> it = q.GetBackwardIterator(); it.HasData(); it++, i--) { if (i < 0 || it.GetValue().tag != m[i].tag) { msg = "backward iterator sequence wrong"; key = "iterator"; return false; } } if (i != -1) { msg = "backward iterator length wrong"; key = "iterator"; return false; } }
+         { uint32 i = 0; for (ConstQueueIterator<T> it = q.GetIterator(); it.HasData(); it++, i++) { if (i >= m.size() || it.GetValue().tag != m[i].tag) { msg = "forward iterator sequence wrong"; key = "iterator"; return false; } } if (i != m.size()) { msg = "forward iterator length wrong"; key = "iterator"; return false; } }
+         { int32 i = (int32)m.size() - 1; for (ConstQueueIterator<T> it = q.GetBackwardIterator(); it.HasData(); it++, i--) { if (i < 0 || it.GetValue().tag != m[i].tag) { msg = "backward iterator sequence wrong"; key = "iterator"; return false; } } if (i != -1) { msg = "backward iterator length wrong"; key = "iterator"; return false; } }
          {
-            uint32 l0 = 0, l1 = 0; const Tracked * a0 = q.GetArrayPointer(0, l0); const Tracked * a1 = q.GetArrayPointer(1, l1);
+            uint32 l0 = 0, l1 = 0; const T * a0 = q.GetArrayPointer(0, l0); const T * a1 = q.GetArrayPointer(1, l1);
             if (a0 == NULL) l0 = 0; if (a1 == NULL) l1 = 0;
             if (l0 + l1 != m.size()) { msg = verif::Fmt("GetArrayPointer lengths %u+%u != size %u", l0, l1, (unsigned)m.size()); key = "arrayptr"; return false; }
             for (uint32 i = 0; i < l0; i++) { a0[i].Check(); if (a0[i].tag != m[i].tag) { msg = "GetArrayPointer(0) content wrong"; key = "arrayptr"; return false; } }
@@ -167,32 +185,34 @@ public:
             if (q.HeadPointer() != NULL || q.TailPointer() != NULL) { msg = "Head/TailPointer non-NULL on empty"; key = "query"; return false; }
          }
       }
+      if (TR::kTracked) {
       // Every live tagged instance must physically sit in the storage of one of the two queues (no leaked array, no item destroyed early).
       // Stale copies in *unused* slots / in an inactive inline buffer are tolerated here: whether they are ever *exposed* is decided by the
       // content comparison after the EnsureSize(set) operations of the alphabet, which re-expose unused slots as "default" items.
       long physical = 0;
       for (int z = 0; z < 2; z++) {
-         const Queue<Tracked> & q = *qs[z];
+         const Queue<T> & q = *qs[z];
          for (uint32 s = 0; s < q._queueSize; s++) { q._queue[s].Check(); if (q._queue[s].tag) physical++; }
-         if (q._queue != q._smallQueue) for (uint32 s = 0; s < (uint32)Queue<Tracked>::ACTUAL_SMALL_QUEUE_SIZE; s++) { q._smallQueue[s].Check(); if (q._smallQueue[s].tag) physical++; }
+         if (q._queue != q._smallQueue) for (uint32 s = 0; s < (uint32)Queue<T>::ACTUAL_SMALL_QUEUE_SIZE; s++) { q._smallQueue[s].Check(); if (q._smallQueue[s].tag) physical++; }
       }
       if (g_poisonReads) { msg = "a destroyed item was read"; key = "poison"; return false; }
       long live = g_liveTagged - w.liveBase;
       if (live != physical) { msg = verif::Fmt("live tagged instances %ld != instances held in the queues' storage %ld (leaked array or early destruction)", live, physical); key = "live-count"; return false; }
+      }
       return true;
    }
 
    int Apply(World & w, int opi, std::string & msg, std::string & key) const
    {
       const Op & o = ops[opi];
-      Queue<Tracked> & q = w.q; Ref & m = w.mq; const size_t n = m.size();
+      Queue<T> & q = w.q; Ref & m = w.mq; const size_t n = m.size();
       std::string res;
 #define FAILIF(cond, text) do { if (cond) { msg = OpName(opi) + ": " + (text) + "; impl " + ShowQ(q) + " reference(after) " + Show(m); key = "result:" + std::string(o.name); return seqx::SEQX_VIOLATION; } } while (0)
       switch (o.k) {
-      case ADDTAIL: { Item it; Tracked t = Mk(w, o.a, it); status_t r = q.AddTail(t); m.push_back(it); FAILIF(r.IsError(), "failed"); break; }
-      case ADDHEAD: { Item it; Tracked t = Mk(w, o.a, it); status_t r = q.AddHead(t); m.push_front(it); FAILIF(r.IsError(), "failed"); break; }
-      case ADDTAIL_ARR: { Item a, b; Tracked arr[2] = { Mk(w, 3, a), Mk(w, 1, b) }; status_t r = q.AddTailMulti(arr, 2); m.push_back(a); m.push_back(b); FAILIF(r.IsError(), "failed"); break; }
-      case ADDHEAD_ARR: { Item a, b; Tracked arr[2] = { Mk(w, 3, a), Mk(w, 1, b) }; status_t r = q.AddHeadMulti(arr, 2); m.push_front(b); m.push_front(a); FAILIF(r.IsError(), "failed"); break; }
+      case ADDTAIL: { Item it; T t = Mk(w, o.a, it); status_t r = q.AddTail(t); m.push_back(it); FAILIF(r.IsError(), "failed"); break; }
+      case ADDHEAD: { Item it; T t = Mk(w, o.a, it); status_t r = q.AddHead(t); m.push_front(it); FAILIF(r.IsError(), "failed"); break; }
+      case ADDTAIL_ARR: { Item a, b; T arr[2] = { Mk(w, 3, a), Mk(w, 1, b) }; status_t r = q.AddTailMulti(arr, 2); m.push_back(a); m.push_back(b); FAILIF(r.IsError(), "failed"); break; }
+      case ADDHEAD_ARR: { Item a, b; T arr[2] = { Mk(w, 3, a), Mk(w, 1, b) }; status_t r = q.AddHeadMulti(arr, 2); m.push_front(b); m.push_front(a); FAILIF(r.IsError(), "failed"); break; }
       case ADDTAIL_Q: { status_t r = q.AddTailMulti(w.r); m.insert(m.end(), w.mr.begin(), w.mr.end()); FAILIF(r.IsError(), "failed"); break; }
       case ADDHEAD_Q: { status_t r = q.AddHeadMulti(w.r); m.insert(m.begin(), w.mr.begin(), w.mr.end()); FAILIF(r.IsError(), "failed"); break; }
       case ADDTAIL_Q_SUB: { status_t r = q.AddTailMulti(w.r, 1, 1); if (w.mr.size() > 1) m.push_back(w.mr[1]); FAILIF(r.IsError(), "failed"); break; }
@@ -203,41 +223,48 @@ public:
       case ADDTAIL_SELFITEM: { if (n == 0) return seqx::SEQX_DISABLED; Item it = m[n / 2]; status_t r = q.AddTail(q[(uint32)(n / 2)]); m.push_back(it); FAILIF(r.IsError(), "failed"); break; }
       case ADDHEAD_SELFITEM: { if (n == 0) return seqx::SEQX_DISABLED; Item it = m[n / 2]; status_t r = q.AddHead(q[(uint32)(n / 2)]); m.push_front(it); FAILIF(r.IsError(), "failed"); break; }
       case ADDTAIL_SELFARR: {  // pointer into the queue's own storage (first contiguous run)
-         if (n == 0) return seqx::SEQX_DISABLED; uint32 len = 0; const Tracked * p = q.GetArrayPointer(0, len); if (!p || len == 0) return seqx::SEQX_DISABLED;
+         if (n == 0) return seqx::SEQX_DISABLED; uint32 len = 0; const T * p = q.GetArrayPointer(0, len); if (!p || len == 0) return seqx::SEQX_DISABLED;
          Ref c(m.begin(), m.begin() + len); status_t r = q.AddTailMulti(p, len); m.insert(m.end(), c.begin(), c.end()); FAILIF(r.IsError(), "failed"); break; }
       case ADDHEAD_SELFARR: {
-         if (n == 0) return seqx::SEQX_DISABLED; uint32 len = 0; const Tracked * p = q.GetArrayPointer(0, len); if (!p || len == 0) return seqx::SEQX_DISABLED;
+         if (n == 0) return seqx::SEQX_DISABLED; uint32 len = 0; const T * p = q.GetArrayPointer(0, len); if (!p || len == 0) return seqx::SEQX_DISABLED;
          if (len <= q.GetNumUnusedItemSlots()) return seqx::SEQX_DISABLED;  // without reallocation the documented re-entrancy guard does not apply: behaviour with an aliasing raw pointer is unspecified
          Ref c(m.begin(), m.begin() + len); status_t r = q.AddHeadMulti(p, len); m.insert(m.begin(), c.begin(), c.end()); FAILIF(r.IsError(), "failed"); break; }
       case REMHEAD: { status_t r = q.RemoveHead(); if (n) m.pop_front(); FAILIF(r.IsOK() != (n > 0), "status wrong"); FAILIF(n == 0 && r != B_DATA_NOT_FOUND, "error code not B_DATA_NOT_FOUND"); break; }
       case REMTAIL: { status_t r = q.RemoveTail(); if (n) m.pop_back(); FAILIF(r.IsOK() != (n > 0), "status wrong"); break; }
-      case REMHEAD_RET: { Tracked t(7, 0); status_t r = q.RemoveHead(t); FAILIF(r.IsOK() != (n > 0), "status wrong"); if (n) { FAILIF(t.tag != m.front().tag, "returned item wrong"); m.pop_front(); } else FAILIF(t.key != 7, "return item modified on failure"); break; }
-      case REMTAIL_RET: { Tracked t(7, 0); status_t r = q.RemoveTail(t); FAILIF(r.IsOK() != (n > 0), "status wrong"); if (n) { FAILIF(t.tag != m.back().tag, "returned item wrong"); m.pop_back(); } else FAILIF(t.key != 7, "return item modified on failure"); break; }
-      case REMHEAD_DEF: { Tracked t = q.RemoveHeadWithDefault(); if (n) { FAILIF(t.tag != m.front().tag, "returned item wrong"); m.pop_front(); } else FAILIF(t.tag != 0 || t.key != 0, "default item expected"); break; }
-      case REMTAIL_DEF: { Tracked t = q.RemoveTailWithDefault(); if (n) { FAILIF(t.tag != m.back().tag, "returned item wrong"); m.pop_back(); } else FAILIF(t.tag != 0 || t.key != 0, "default item expected"); break; }
+      case REMHEAD_RET: { T t = TR::Make(7, 0); status_t r = q.RemoveHead(t); FAILIF(r.IsOK() != (n > 0), "status wrong"); if (n) { FAILIF(t.tag != m.front().tag, "returned item wrong"); m.pop_front(); } else FAILIF(t.key != 7, "return item modified on failure"); break; }
+      case REMTAIL_RET: { T t = TR::Make(7, 0); status_t r = q.RemoveTail(t); FAILIF(r.IsOK() != (n > 0), "status wrong"); if (n) { FAILIF(t.tag != m.back().tag, "returned item wrong"); m.pop_back(); } else FAILIF(t.key != 7, "return item modified on failure"); break; }
+      case REMHEAD_DEF: { T t = q.RemoveHeadWithDefault(); if (n) { FAILIF(t.tag != m.front().tag, "returned item wrong"); m.pop_front(); } else FAILIF(t.tag != 0 || t.key != 0, "default item expected"); break; }
+      case REMTAIL_DEF: { T t = q.RemoveTailWithDefault(); if (n) { FAILIF(t.tag != m.back().tag, "returned item wrong"); m.pop_back(); } else FAILIF(t.tag != 0 || t.key != 0, "default item expected"); break; }
       case REMHEADMULTI: { uint32 c = q.RemoveHeadMulti((uint32)o.a); size_t e = std::min((size_t)o.a, n); for (size_t i = 0; i < e; i++) m.pop_front(); FAILIF(c != e, verif::Fmt("returned %u expected %u", c, (unsigned)e)); break; }
       case REMTAILMULTI: { uint32 c = q.RemoveTailMulti((uint32)o.a); size_t e = std::min((size_t)o.a, n); for (size_t i = 0; i < e; i++) m.pop_back(); FAILIF(c != e, verif::Fmt("returned %u expected %u", c, (unsigned)e)); break; }
-      case INSERT_AT: { uint32 idx = SelIdx(o.a, n); Item it; Tracked t = Mk(w, 3, it); status_t r = q.InsertItemAt(idx, t); m.insert(m.begin() + std::min((size_t)idx, n), it); FAILIF(r.IsError(), "failed (index>=size is documented as AddTail)"); break; }
+      case INSERT_AT: { uint32 idx = SelIdx(o.a, n); Item it; T t = Mk(w, 3, it); status_t r = q.InsertItemAt(idx, t); m.insert(m.begin() + std::min((size_t)idx, n), it); FAILIF(r.IsError(), "failed (index>=size is documented as AddTail)"); break; }
       case INSERTS_AT_Q: { uint32 idx = SelIdx(o.a, n); status_t r = q.InsertItemsAt(idx, w.r); m.insert(m.begin() + std::min((size_t)idx, n), w.mr.begin(), w.mr.end()); FAILIF(r.IsError(), "failed"); break; }
-      case INSERTS_AT_ARR: { uint32 idx = SelIdx(o.a, n); Item a, b; Tracked arr[2] = { Mk(w, 3, a), Mk(w, 1, b) }; status_t r = q.InsertItemsAt(idx, arr, 2); size_t at = std::min((size_t)idx, n); m.insert(m.begin() + at, b); m.insert(m.begin() + at, a); FAILIF(r.IsError(), "failed"); break; }
+      case INSERTS_AT_ARR: { uint32 idx = SelIdx(o.a, n); Item a, b; T arr[2] = { Mk(w, 3, a), Mk(w, 1, b) }; status_t r = q.InsertItemsAt(idx, arr, 2); size_t at = std::min((size_t)idx, n); m.insert(m.begin() + at, b); m.insert(m.begin() + at, a); FAILIF(r.IsError(), "failed"); break; }
       case INSERTS_AT_SELF: { if (n == 0) return seqx::SEQX_DISABLED; uint32 idx = SelIdx(o.a, n); Ref c = m; status_t r = q.InsertItemsAt(idx, q); m.insert(m.begin() + std::min((size_t)idx, n), c.begin(), c.end()); FAILIF(r.IsError(), "failed"); break; }
       case REMOVE_AT: { uint32 idx = SelIdx(o.a, n); status_t r = q.RemoveItemAt(idx); bool ok = idx < n; if (ok) m.erase(m.begin() + idx); FAILIF(r.IsOK() != ok, "status wrong"); FAILIF(!ok && r != B_BAD_ARGUMENT, "error code not B_BAD_ARGUMENT"); break; }
-      case REMOVE_AT_RET: { uint32 idx = SelIdx(o.a, n); Tracked t(7, 0); status_t r = q.RemoveItemAt(idx, t); bool ok = idx < n; FAILIF(r.IsOK() != ok, "status wrong"); if (ok) { FAILIF(t.tag != m[idx].tag, "returned item wrong"); m.erase(m.begin() + idx); } else FAILIF(t.key != 7, "return item modified on failure"); break; }
-      case REPLACE_AT: { uint32 idx = SelIdx(o.a, n); Item it; Tracked t = Mk(w, 3, it); status_t r = q.ReplaceItemAt(idx, t); bool ok = idx < n; if (ok) m[idx] = it; FAILIF(r.IsOK() != ok, "status wrong"); FAILIF(!ok && r != B_BAD_ARGUMENT, "error code not B_BAD_ARGUMENT"); break; }
+      case REMOVE_AT_RET: { uint32 idx = SelIdx(o.a, n); T t = TR::Make(7, 0); status_t r = q.RemoveItemAt(idx, t); bool ok = idx < n; FAILIF(r.IsOK() != ok, "status wrong"); if (ok) { FAILIF(t.tag != m[idx].tag, "returned item wrong"); m.erase(m.begin() + idx); } else FAILIF(t.key != 7, "return item modified on failure"); break; }
+      case REPLACE_AT: { uint32 idx = SelIdx(o.a, n); Item it; T t = Mk(w, 3, it); status_t r = q.ReplaceItemAt(idx, t); bool ok = idx < n; if (ok) m[idx] = it; FAILIF(r.IsOK() != ok, "status wrong"); FAILIF(!ok && r != B_BAD_ARGUMENT, "error code not B_BAD_ARGUMENT"); break; }
       case SWAP: { if (n < 2) return seqx::SEQX_DISABLED; q.Swap(0, (uint32)n - 1); std::swap(m[0], m[n - 1]); break; }
       case REVERSE: { q.ReverseItemOrdering(); std::reverse(m.begin(), m.end()); break; }
       case REVERSE_SUB: { if (n < 3) return seqx::SEQX_DISABLED; q.ReverseItemOrdering(1, (uint32)n - 1); std::reverse(m.begin() + 1, m.begin() + (n - 1)); break; }
       case SORT: { q.Sort(); std::stable_sort(m.begin(), m.end(), [](const Item & a, const Item & b) { return a.key < b.key; }); break; }
       case SORT_SUB: { if (n < 2) return seqx::SEQX_DISABLED; q.Sort((uint32)1, (uint32)n); std::stable_sort(m.begin() + 1, m.end(), [](const Item & a, const Item & b) { return a.key < b.key; }); break; }
-      case ROTATE: { if (n == 0) return seqx::SEQX_DISABLED; Tracked t; status_t r = q.RemoveHead(t); FAILIF(r.IsError(), "RemoveHead failed"); r = q.AddTail(t); FAILIF(r.IsError(), "AddTail failed"); m.push_back(m.front()); m.pop_front(); break; }
+      case ROTATE: { if (n == 0) return seqx::SEQX_DISABLED; T t = TR::Make(0, 0); status_t r = q.RemoveHead(t); FAILIF(r.IsError(), "RemoveHead failed"); r = q.AddTail(t); FAILIF(r.IsError(), "AddTail failed"); m.push_back(m.front()); m.pop_front(); break; }
       case ENSURE: { status_t r = q.EnsureSize((uint32)o.a); FAILIF(r.IsError(), "failed"); FAILIF(q.GetNumAllocatedItemSlots() < (uint32)o.a, "fewer slots than requested"); break; }
-      case ENSURE_SET: { status_t r = q.EnsureSize((uint32)o.a, true); FAILIF(r.IsError(), "failed"); Item d = {0, 0}; while (m.size() > (size_t)o.a) m.pop_back(); while (m.size() < (size_t)o.a) m.push_back(d); break; }
+      case ENSURE_SET: {
+         status_t r = q.EnsureSize((uint32)o.a, true); FAILIF(r.IsError(), "failed"); Item d = {0, 0}; while (m.size() > (size_t)o.a) m.pop_back();
+         FAILIF(q.GetNumItems() != (uint32)o.a, "size not set");
+         // owning types: the added items must be default items (a stale item re-exposed here is a violation).  Trivially copyable types: added items are
+         // default-initialised in the C++ sense, i.e. indeterminate (documented for AddTailAndGet()), so the harness overwrites them with a defined value before comparing.
+         while (m.size() < (size_t)o.a) { if (!TR::kTracked) q[(uint32)m.size()] = TR::Make(0, 0);   // give the indeterminate new item a defined value (keeps replays deterministic)
+            m.push_back(d); }
+         break; }
       case ENSURE_EXTRA: { status_t r = q.EnsureSize((uint32)n + 2, false, 3); FAILIF(r.IsError(), "failed"); FAILIF(q.GetNumAllocatedItemSlots() < n + 2, "fewer slots than requested"); break; }
       case ENSURE_SHRINK: { status_t r = q.EnsureSize((uint32)n, false, 0, true); FAILIF(r.IsError(), "failed"); FAILIF(q.GetNumAllocatedItemSlots() < n, "fewer slots than items"); break; }
       case SHRINK: { status_t r = q.ShrinkToFit(); FAILIF(r.IsError(), "failed"); FAILIF(q.GetNumAllocatedItemSlots() < n, "fewer slots than items"); break; }
       case SHRINK_EXTRA: { status_t r = q.ShrinkToFit(2); FAILIF(r.IsError(), "failed"); FAILIF(q.GetNumAllocatedItemSlots() < n + 2, "fewer slots than items+2"); break; }
       case NORMALIZE: { q.Normalize(); FAILIF(!q.IsNormalized(), "not normalized after Normalize()"); break; }
-      case COPYCTOR: { Queue<Tracked> c(q); FAILIF(!Same(c, m), "copy differs: " + ShowQ(c)); FAILIF(!(c == q) || (c != q), "copy not == original"); Queue<Tracked> d; status_t r = d.CopyFrom(q); FAILIF(r.IsError() || !Same(d, m), "CopyFrom differs"); break; }
+      case COPYCTOR: { Queue<T> c(q); FAILIF(!Same(c, m), "copy differs: " + ShowQ(c)); FAILIF(!(c == q) || (c != q), "copy not == original"); Queue<T> d; status_t r = d.CopyFrom(q); FAILIF(r.IsError() || !Same(d, m), "CopyFrom differs"); break; }
       case ASSIGN_Q_FROM_R: { q = w.r; m = w.mr; break; }
       case ASSIGN_R_FROM_Q: { w.r = q; w.mr = m; break; }
       case MOVE_Q_FROM_R: { q = std::move(w.r); std::swap(m, w.mr);
@@ -245,22 +272,22 @@ public:
          w.mr.clear(); for (uint32 i = 0; i < w.r.GetNumItems(); i++) { Item it = { w.r[i].key, w.r[i].tag }; w.mr.push_back(it); }
          break; }
       case SWAPCONTENTS: { q.SwapContents(w.r); std::swap(m, w.mr); break; }
-      case SELFASSIGN: { Queue<Tracked> & alias = q; q = alias; break; }
+      case SELFASSIGN: { Queue<T> & alias = q; q = alias; break; }
       case CLEAR: { q.Clear(); m.clear(); FAILIF(!q.IsNormalized(), "not normalized after Clear"); break; }
       case CLEAR_REL: { q.Clear(true); m.clear(); FAILIF(q._queue != NULL && q._queue != q._smallQueue, "Clear(true) kept a heap buffer"); break; }
-      case INDEXOF: { Tracked t(o.a, 0); int32 r = q.IndexOf(t); int32 e = -1; for (size_t i = 0; i < n; i++) if (m[i].key == o.a) { e = (int32)i; break; } FAILIF(r != e, verif::Fmt("returned %d expected %d", r, e)); FAILIF(q.Contains(t) != (e >= 0), "Contains wrong");
+      case INDEXOF: { T t = TR::Make(o.a, 0); int32 r = q.IndexOf(t); int32 e = -1; for (size_t i = 0; i < n; i++) if (m[i].key == o.a) { e = (int32)i; break; } FAILIF(r != e, verif::Fmt("returned %d expected %d", r, e)); FAILIF(q.Contains(t) != (e >= 0), "Contains wrong");
          if (n >= 2) { int32 r2 = q.IndexOf(t, 1, (uint32)n - 1); int32 e2 = -1; for (size_t i = 1; i + 1 < n; i++) if (m[i].key == o.a) { e2 = (int32)i; break; } FAILIF(r2 != e2, verif::Fmt("ranged IndexOf returned %d expected %d", r2, e2)); }
          res = verif::Fmt("%d", r); break; }
-      case LASTINDEXOF: { Tracked t(o.a, 0); int32 r = q.LastIndexOf(t); int32 e = -1; for (size_t i = n; i > 0; i--) if (m[i - 1].key == o.a) { e = (int32)i - 1; break; } FAILIF(r != e, verif::Fmt("returned %d expected %d", r, e)); res = verif::Fmt("%d", r); break; }
+      case LASTINDEXOF: { T t = TR::Make(o.a, 0); int32 r = q.LastIndexOf(t); int32 e = -1; for (size_t i = n; i > 0; i--) if (m[i - 1].key == o.a) { e = (int32)i - 1; break; } FAILIF(r != e, verif::Fmt("returned %d expected %d", r, e)); res = verif::Fmt("%d", r); break; }
       case EQUALS: { bool e = (m.size() == w.mr.size()); for (size_t i = 0; e && i < n; i++) if (m[i].key != w.mr[i].key) e = false; bool r = (q == w.r); FAILIF(r != e, "== wrong"); FAILIF((q != w.r) == e, "!= wrong"); res = r ? "eq" : "ne"; break; }
-      case REMOVEALL: { Tracked t(o.a, 0); uint32 c = q.RemoveAllInstancesOf(t); uint32 e = 0; for (size_t i = m.size(); i > 0; i--) if (m[i - 1].key == o.a) { m.erase(m.begin() + (i - 1)); e++; } FAILIF(c != e, verif::Fmt("returned %u expected %u", c, e)); break; }
-      case REMOVEFIRST: { Tracked t(o.a, 0); status_t r = q.RemoveFirstInstanceOf(t); bool f = false; for (size_t i = 0; i < m.size(); i++) if (m[i].key == o.a) { m.erase(m.begin() + i); f = true; break; } FAILIF(r.IsOK() != f, "status wrong"); break; }
-      case REMOVELAST: { Tracked t(o.a, 0); status_t r = q.RemoveLastInstanceOf(t); bool f = false; for (size_t i = m.size(); i > 0; i--) if (m[i - 1].key == o.a) { m.erase(m.begin() + (i - 1)); f = true; break; } FAILIF(r.IsOK() != f, "status wrong"); break; }
-      case ADDTAIL_IFNOT: { bool present = false; for (size_t i = 0; i < n; i++) if (m[i].key == o.a) present = true; Item it; Tracked t = Mk(w, o.a, it); status_t r = q.AddTailIfNotAlreadyPresent(t); if (!present) m.push_back(it); FAILIF(r.IsError(), "failed"); break; }
-      case GETWITHDEFAULT: { for (uint32 i = 0; i <= n + 1; i++) { const Tracked & t = q.GetWithDefault(i); int et = (i < n) ? m[i].tag : 0; FAILIF(t.tag != et, verif::Fmt("GetWithDefault(%u) wrong", i)); Tracked d(5, 0); Tracked u = q.GetWithDefault(i, d); FAILIF((i < n) ? (u.tag != m[i].tag) : (u.key != 5), verif::Fmt("GetWithDefault(%u, def) wrong", i)); } break; }
+      case REMOVEALL: { T t = TR::Make(o.a, 0); uint32 c = q.RemoveAllInstancesOf(t); uint32 e = 0; for (size_t i = m.size(); i > 0; i--) if (m[i - 1].key == o.a) { m.erase(m.begin() + (i - 1)); e++; } FAILIF(c != e, verif::Fmt("returned %u expected %u", c, e)); break; }
+      case REMOVEFIRST: { T t = TR::Make(o.a, 0); status_t r = q.RemoveFirstInstanceOf(t); bool f = false; for (size_t i = 0; i < m.size(); i++) if (m[i].key == o.a) { m.erase(m.begin() + i); f = true; break; } FAILIF(r.IsOK() != f, "status wrong"); break; }
+      case REMOVELAST: { T t = TR::Make(o.a, 0); status_t r = q.RemoveLastInstanceOf(t); bool f = false; for (size_t i = m.size(); i > 0; i--) if (m[i - 1].key == o.a) { m.erase(m.begin() + (i - 1)); f = true; break; } FAILIF(r.IsOK() != f, "status wrong"); break; }
+      case ADDTAIL_IFNOT: { bool present = false; for (size_t i = 0; i < n; i++) if (m[i].key == o.a) present = true; Item it; T t = Mk(w, o.a, it); status_t r = q.AddTailIfNotAlreadyPresent(t); if (!present) m.push_back(it); FAILIF(r.IsError(), "failed"); break; }
+      case GETWITHDEFAULT: { for (uint32 i = 0; i <= n + 1; i++) { const T & t = q.GetWithDefault(i); int et = (i < n) ? m[i].tag : 0; FAILIF(t.tag != et, verif::Fmt("GetWithDefault(%u) wrong", i)); T d = TR::Make(5, 0); T u = q.GetWithDefault(i, d); FAILIF((i < n) ? (u.tag != m[i].tag) : (u.key != 5), verif::Fmt("GetWithDefault(%u, def) wrong", i)); } break; }
       case INSERT_SORTED: {  // precondition: queue sorted
          for (size_t i = 1; i < n; i++) if (m[i - 1].key > m[i].key) return seqx::SEQX_DISABLED;
-         Item it; Tracked t = Mk(w, o.a, it); int32 r = q.InsertItemAtSortedPosition(t); FAILIF(r < 0 || (size_t)r > n, "bad return index");
+         Item it; T t = Mk(w, o.a, it); int32 r = q.InsertItemAtSortedPosition(t); FAILIF(r < 0 || (size_t)r > n, "bad return index");
          m.insert(m.begin() + r, it); for (size_t i = 1; i < m.size(); i++) FAILIF(m[i - 1].key > m[i].key, "queue no longer sorted after InsertItemAtSortedPosition");
          break; }
       case REMOVE_SORTED_DUPS: {
@@ -271,7 +298,7 @@ public:
          FAILIF(q.GetNumItems() != nm.size(), "size wrong"); for (size_t i = 0; i < nm.size(); i++) { FAILIF(q[(uint32)i].key != nm[i].key, "keys wrong"); bool known = false; for (size_t j = 0; j < n; j++) if (m[j].tag == q[(uint32)i].tag && m[j].key == q[(uint32)i].key) known = true; FAILIF(!known, "surviving item is not one of the original items"); nm[i].tag = q[(uint32)i].tag; }
          m = nm; break; }
       case STARTSENDS: {
-         Tracked one(1, 0); FAILIF(q.StartsWith(one) != (n && m.front().key == 1), "StartsWith(item) wrong"); FAILIF(q.EndsWith(one) != (n && m.back().key == 1), "EndsWith(item) wrong");
+         T one = TR::Make(1, 0); FAILIF(q.StartsWith(one) != (n && m.front().key == 1), "StartsWith(item) wrong"); FAILIF(q.EndsWith(one) != (n && m.back().key == 1), "EndsWith(item) wrong");
          bool sw = w.mr.size() <= n, ew = sw; for (size_t i = 0; sw && i < w.mr.size(); i++) if (m[i].key != w.mr[i].key) sw = false; for (size_t i = 0; ew && i < w.mr.size(); i++) if (m[n - w.mr.size() + i].key != w.mr[i].key) ew = false;
          FAILIF(q.StartsWith(w.r) != sw, "StartsWith(queue) wrong"); FAILIF(q.EndsWith(w.r) != ew, "EndsWith(queue) wrong"); break; }
       }
@@ -285,29 +312,37 @@ public:
    // appearance.  Futures depend on (content, layout) only; the tag counter influences futures only through tags, which are ranked away.
    void Canon(const World & w, std::string & out) const
    {
-      std::map<int, int> rank; const Queue<Tracked> * qs[2] = { &w.q, &w.r };
+      std::map<int, int> rank; const Queue<T> * qs[2] = { &w.q, &w.r };
       for (int z = 0; z < 2; z++) {
-         const Queue<Tracked> & q = *qs[z];
+         const Queue<T> & q = *qs[z];
          out += verif::Fmt("|h%u c%u %c:", q._itemCount ? q._headIndex : 0u, q._queueSize, (q._queue == q._smallQueue) ? 'i' : 'h');
          for (uint32 i = 0; i < q.GetNumItems(); i++) { int t = q[i].tag; int rk = 0; if (t) { std::map<int, int>::iterator it = rank.find(t); if (it == rank.end()) { rk = (int)rank.size() + 1; rank[t] = rk; } else rk = it->second; } out += verif::Fmt("%d.%d,", q[i].key, rk); }
       }
    }
-   void Outcome(const World & w, std::string & out) const { out = w.lastResult + "/" + Show(w.mq).substr(0, 0) + verif::Fmt("%u/%u", (unsigned)w.mq.size(), (unsigned)w.mr.size()); for (size_t i = 0; i < w.mq.size(); i++) out += (char)('0' + w.mq[i].key); }
+   void Outcome(const World & w, std::string & out) const { out = w.lastResult + "/" + Show(w.mq).substr(0, 0) + verif::Fmt("%u/%u", (unsigned)w.mq.size(), (unsigned)w.mr.size()); for (size_t i = 0; i < w.mq.size(); i++) out += verif::Fmt("%d,", w.mq[i].key); }
 };
+
+template <class T> static int RunModel(verif::Args & args, verif::Result & res, const char * partName, int depth, double deadlineFrac0, double deadlineFrac1, verif::ReplayDoc * replay)
+{
+   QueueModel<T> model(args.Thorough()); model.BuildStarts();
+   seqx::Explorer<QueueModel<T> > ex(model, args, res, partName);
+   if (replay) return ex.ReplayFile(*replay);
+   (void) deadlineFrac0; ex.SetDeadline(args.t0 + args.deadline * deadlineFrac1);
+   seqx::Stats S = ex.Run(depth);
+   res.parts.back().rule = verif::Fmt("%s: every sequence of <=%d operations from a %d-operation alphabet (single/multi add and remove at both ends incl. self-aliasing sources, insert/remove/replace at index {0,mid,last,size,size+1}, swap, reverse, sort, rotate, EnsureSize variants, ShrinkToFit, Normalize, copy/assign/move/SwapContents with a second queue, both Clears, searches, ==) applied to a real Queue from each of %d start states (empty; sizes 2,3,4 around the inline capacity and 7,8,9 around a heap capacity with the ring head at every offset); states deduplicated on (contents with instance tags ranked, head index, capacity, inline/heap) of both queues; a state is non-trivial when its canonical form is new",
+                                      Traits<T>::Name(), depth, model.NumOps(), model.NumStarts());
+   fprintf(stderr, "C16 %s: states=%llu transitions=%llu depth=%d exhaustive=%d outcomes=%llu violations=%llu wall=%.1fs\n", partName, (unsigned long long)S.states, (unsigned long long)S.transitions, S.depthCompleted, (int)S.exhaustive, (unsigned long long)S.distinctOutcomes, (unsigned long long)S.violations, verif::NowS() - args.t0);
+   return 0;
+}
 
 int main(int argc, char ** argv)
 {
    verif::Args args; args.Parse(argc, argv);
    verif::Result res; res.harness = "C16_queue";
-   QueueModel model(args.Thorough()); model.BuildStarts();
-   seqx::Explorer<QueueModel> ex(model, args, res, "queue-vs-deque");
-   if (!args.replay.empty()) { verif::ReplayDoc d; if (!d.Load(args.replay)) { fprintf(stderr, "cannot read %s\n", args.replay.c_str()); return 3; } return ex.ReplayFile(d); }
-   ex.SetDeadline(args.t0 + args.deadline * 0.9);
-   int depth = args.Thorough() ? 5 : 3;
+   if (!args.replay.empty()) { verif::ReplayDoc d; if (!d.Load(args.replay)) { fprintf(stderr, "cannot read %s\n", args.replay.c_str()); return 3; } return (d.Str("part") == "podqueue-vs-deque") ? RunModel<Pod>(args, res, "podqueue-vs-deque", 0, 0, 0, &d) : RunModel<Tracked>(args, res, "queue-vs-deque", 0, 0, 0, &d); }
+   int depth = args.Thorough() ? 4 : 3;
    if (args.kv.count("depth")) depth = atoi(args.kv["depth"].c_str());
-   seqx::Stats S = ex.Run(depth);
-   res.parts.back().rule = verif::Fmt("every sequence of <=%d operations from a %d-operation alphabet (single/multi add and remove at both ends incl. self-aliasing sources, insert/remove/replace at index {0,mid,last,size,size+1}, swap, reverse, sort, rotate, EnsureSize variants, ShrinkToFit, Normalize, copy/assign/move/SwapContents with a second queue, both Clears, searches, ==) applied to a real Queue<Tracked> from each of %d start states (empty; sizes 2,3,4 around the inline capacity and 7,8,9 around a heap capacity with the ring head at every offset); states deduplicated on (contents with instance tags ranked, head index, capacity, inline/heap) of both queues; a state is non-trivial when its canonical form is new",
-                                      depth, model.NumOps(), model.NumStarts());
-   fprintf(stderr, "C16: states=%llu transitions=%llu depth=%d exhaustive=%d outcomes=%llu violations=%llu wall=%.1fs\n", (unsigned long long)S.states, (unsigned long long)S.transitions, S.depthCompleted, (int)S.exhaustive, (unsigned long long)S.distinctOutcomes, (unsigned long long)S.violations, verif::NowS() - args.t0);
+   if (args.WantPart("queue-vs-deque")) RunModel<Tracked>(args, res, "queue-vs-deque", depth, 0.0, 0.5, NULL);
+   if (args.WantPart("podqueue-vs-deque")) RunModel<Pod>(args, res, "podqueue-vs-deque", depth, 0.5, 0.95, NULL);
    return res.Write(args);
 }
